@@ -37,6 +37,9 @@ class C19(Prop):
     lean_module = "RxModel.Props.C19"
     extra_modules = ("RxModel.Props.C19T", "RxModel.Props.C02S")
     design_ref = "DESIGN.md §6 C19"
+    # translator tie (DESIGN II.7): src/scheduler.rs itself — TaskHandle's two Subscription impls and the poll functions of
+    # Remote / OnceTask / FutureTask / RepeatTask, regenerated from the compiler-expanded source on every run
+    tie_modules = {"RxModel.GenTie.Scheduler": []}
     rule = ("one-shot tasks (timer, delay, delay_subscription, subscribe_on, debounce/throttle windows), subscribing "
             "tasks and repeating tasks (interval, buffer_with_time) with delays from {0,1,2,5,10} on the virtual clock; "
             "cancellation (unsubscribe) injected at every phase: before the first poll, while pending on the timer, "
